@@ -162,7 +162,7 @@ impl<'a> DataParser<'a> {
             return;
         }
 
-        if self.current_element.len() > 0 {
+        if !self.current_element.trim().is_empty() {
             self.push_current_element();
         } else if self.elements.len() == 0 {
             self.push_current_element();
